@@ -817,8 +817,8 @@ VARIANTS = [
       '          if self.enqueue_done:\n            break\n          if self._enqueue_lock.wait(timeout=self.timeout):',
       '          if self._enqueue_lock.wait(timeout=self.timeout):', 'R-C05-3'),
     B('enqueue-loop-ignores-stop', _F,
-      '      raise e\n    while not self.enqueue_done:\n      try:\n        self.put(next(iterator))',
-      '      raise e\n    while True:\n      try:\n        self.put(next(iterator))',
+      '      raise e\n    while not self.enqueue_done:\n      fetched = False',
+      '      raise e\n    while True:\n      fetched = False',
       'R-C05-3'),
     B('timeout-zero-normalised-to-none', _F,
       '    self.timeout = timeout\n', '    self.timeout = timeout or None\n', 'R-C05-7'),
